@@ -281,14 +281,14 @@ V['N31-gps-sign-local']=[('exif2/model.go',[("""	if g.latitudeRef {
 	}
 	return lat""")])]
 
-V['N32-quote-loop-xmp']=[('xmp/reader.go',[("""			if b := bytes.IndexByte(buf[i:], delim); b >= 0 && (i+b+2 < len(buf) || len(buf) < s) {""","""			b := -1
-			for j := i; j < len(buf); j++ {
+V['N32-quote-loop-xmp']=[('xmp/reader.go',[("""			if b := bytes.IndexByte(buf[o+1:], delim); b >= 0 {""","""			b := -1
+			for j := o + 1; j < len(buf); j++ {
 				if buf[j] == delim {
-					b = j - i
+					b = j - o - 1
 					break
 				}
 			}
-			if b >= 0 && (i+b+2 < len(buf) || len(buf) < s) {""")])]
+			if b >= 0 {""")])]
 
 V['N34-istiff-if-chain']=[('imagetype/imagetype.go',[("""	return len(buf) > 4 &&
 		// BigEndian Tiff Image Header
